@@ -279,6 +279,7 @@ def run(ctx):
     for (tag, rs, m), real in both[:3] + both[-3:]:
         res.sample({"family": tag, "residues": len(rs), "model": m,
                     "pairs": real[1][:6] if real[0] == "ok" else real[1]})
+    __import__("corr.fn_common", fromlist=["run_fn"]).run_fn(ctx, res, "C03")  # regenerated functions vs the real ones (tools/py2lean.py)
     return res
 
 
